@@ -1,12 +1,12 @@
 package main
 
 import (
-	"regexp"
 	"bytes"
 	"encoding/json"
 	"fmt"
 	"io"
 	"math"
+	"regexp"
 	"strconv"
 	"strings"
 )
